@@ -21,10 +21,20 @@ def units(tier):
     for q in ("att2idx", "att2name", "datadesc"):
         us += func_units(H + q, tier)
     us.append(ground_unit("tables.naming", tablecheck.naming_lemmas))
+    # "every name the parser generates": the names are the leaf's (base name + one two-digit index per enclosing group, in
+    # nesting order) and the walk's (index level pushed and popped around every group, also an empty one)
+    Mq = "pyrtcm.rtcmmessage.RTCMMessage"
+    us += func_units(Mq + "._set_attribute_single", tier)
+    for q in ("_set_attribute", "_set_attribute_group", "_set_attribute_optional"):
+        us += func_units(f"{Mq}.{q}", tier)
     return us
 
 
 def replay(o, seed):
+    if "rtcmmessage" in (o.get("unit") or o["name"]):
+        from props.replays import generic_replay
+        return generic_replay(o, seed)
+
     def cands():
         for base, depth in sorted(tablecheck.producible_names()):
             for idx in itertools.product((1, 7, 10, 99, 100, 123), repeat=depth):
